@@ -296,6 +296,7 @@ def gates(sx):
     from geckolib.async_spa_descriptor import GeckoAsyncSpaDescriptor
     from geckolib.config import GeckoConfig
     env = Env()
+    restore_mode = []
     try:
         with patched_time(env.loop):
             events = []
@@ -308,6 +309,13 @@ def gates(sx):
             connected = bool(sx.choice("connected", 2))
             spa._is_connected = connected
             env.loop._time = 1000.0
+            # either timing table: the window is twice the ping frequency of the table in force
+            active = bool(sx.choice("active_config_mode", 2))
+            import geckolib.config as gc
+            gc.ConfigChange = env.loop.create_future()
+            gc.set_config_mode(active)
+            restore_mode.append(True)
+            window = 2 * (gc._GeckoActiveConfig if active else gc._GeckoIdleConfig).PING_FREQUENCY_IN_SECONDS
             age = sx.real_("ping_age", 0, 500)
             spa._last_ping = env.loop.time() - age
             replies = {b"SPACK": b"PACKS", b"GETWC": b"WCGET\x01", b"SETWC": b"WCSET", b"REQRM": b"RMREQ"}
@@ -324,7 +332,7 @@ def gates(sx):
             env.loop.run_until_complete(mk(), max_time=2000.0)
             sent = env.tr.sent
             sx.observe("sent", len(sent))
-            fresh = age < GeckoConfig.PING_FREQUENCY_IN_SECONDS * 2
+            fresh = age < window
             allowed = connected and bool(fresh)
             if not allowed:
                 sx.check(len(sent) == 0, f"gate.nothing-sent-when-not-connected-or-not-pinging.{name}",
@@ -332,6 +340,10 @@ def gates(sx):
             else:
                 sx.check(len(sent) == 1 and _verb(sent[0][0]) == verb, f"gate.exactly-the-request-when-open.{name}")
     finally:
+        if restore_mode:
+            import geckolib.config as gc
+            gc.ConfigChange = env.loop.create_future()
+            gc.set_config_mode(False)
         env.close()
 
 
